@@ -77,7 +77,47 @@ func HarnessC05Step() {
 	verifrt.Cover("end", true)
 }
 
+// HarnessC05History: the mapping has no memory. A long key K (L bytes, a solver-chosen variant, with or
+// without a hash tag) is looked up, then n other distinct long keys (concrete, tagged and untagged) are
+// looked up, then K again, and a key that differs from K in one arbitrary byte: every answer is the
+// specification slot - whatever the earlier lookups left behind (a cache, a pooled buffer, a counter).
+func HarnessC05History(n, L int) {
+	mk := func(prefix byte, i int, tagged bool) []byte {
+		k := make([]byte, L)
+		for j := range k {
+			k[j] = 'a' + byte((i+j)%23)
+		}
+		k[0] = prefix
+		k[1], k[2], k[3] = byte('0'+i%10), byte('0'+(i/10)%10), byte('0'+(i/100)%10)
+		k[4] = byte('0' + (i/1000)%10)
+		if tagged {
+			k[6], k[12] = '{', '}'
+		}
+		return k
+	}
+	tagged := verifrt.Choice("tagged", 2) == 1
+	K := mk('K', 0, tagged)
+	// (arbitrary key BYTES are the subject of HarnessC05; a 40-byte CRC with symbolic bytes in the middle costs
+	// minutes of solver time per query, so the long keys here are concrete variants chosen by the solver)
+	K[8], K[L-1] = byte('A'+verifrt.Choice("in_tag", 3)), byte('0'+verifrt.Choice("last", 3))
+	want := specKeySlot(K)
+	verifrt.Assert(int(Hash(string(K))) == want, "slot_eq_spec")
+	for i := 1; i <= n; i++ {
+		o := mk('x', i, i%2 == 0)
+		got := int(Hash(string(o)))
+		if i%97 == 0 || i == n {
+			verifrt.Assert(got == specKeySlot(o), "slot_eq_spec")
+		}
+	}
+	verifrt.Assert(int(Hash(string(K))) == want, "slot_eq_spec_after_many_other_lookups")
+	K2 := append([]byte{}, K...)
+	K2[L-2] = byte('p' + verifrt.Choice("other", 2))
+	verifrt.Assert(int(Hash(string(K2))) == specKeySlot(K2), "slot_eq_spec_for_a_neighbouring_key")
+	verifrt.Cover("end", true)
+}
+
 func init() {
+	verifrt.Register("HarnessC05History", func(p []int64) { HarnessC05History(int(p[0]), int(p[1])) })
 	verifrt.Register("HarnessC05", func(p []int64) { HarnessC05(int(p[0])) })
 	verifrt.Register("HarnessC05Table", func(p []int64) { HarnessC05Table() })
 	verifrt.Register("HarnessC05Step", func(p []int64) { HarnessC05Step() })
